@@ -21,3 +21,7 @@ func verifTick(*Engine) <-chan time.Time { return nil }
 func verifTickPending(*Engine) bool { return false }
 
 func verifReady(string, ...bool) bool { return false }
+
+func verifPick(string, ...bool) int { return 0 }
+
+func verifBoth(bool, bool) bool { return false }
